@@ -158,6 +158,24 @@ func variants() []variant {
 	tweakBits("bits-exponent-minus-1", func(r uint32) uint32 { return r - 0x01000000 })
 	tweakBits("bits-zero", func(r uint32) uint32 { return 0 })
 	tweakBits("bits-tiny-exponent-3", func(r uint32) uint32 { return 0x03000001 })
+	// the proof-of-work limit and the parent's target where the rule requires something else
+	// (retarget boundaries): skipped by the builder when equal to the required bits
+	vs = append(vs, variant{name: "bits-pow-limit-instead-of-required", bad: true,
+		need: func(c *ctx) bool { return c.req != minichain.PowBits },
+		build: func(c *ctx) *reftx.Block {
+			b := minichain.Build(c.spec(90))
+			b.Bits = minichain.PowBits
+			minichain.Mine(b)
+			return b
+		}})
+	vs = append(vs, variant{name: "bits-parent-instead-of-required", bad: true,
+		need: func(c *ctx) bool { return c.req != c.parent.Bits },
+		build: func(c *ctx) *reftx.Block {
+			b := minichain.Build(c.spec(91))
+			b.Bits = c.parent.Bits
+			minichain.Mine(b)
+			return b
+		}})
 	// ---- time ----
 	setTime := func(name string, bad bool, f func(c *ctx) uint32) {
 		t := tag()
@@ -560,6 +578,20 @@ func main() {
 			return uint32(minichain.GenesisTime) + uint32(uint64(sp.span)*uint64(h)/2015)
 		}})
 	}
+	// a period whose last block is stamped EARLIER than its first one (legal: timestamps
+	// only have to exceed the median of the previous 11): the timespan is negative and
+	// must be clamped to a quarter. Needs two periods (4031 blocks).
+	defs = append(defs, stateDef{name: "retarget-negative-timespan", n: 4031, time: func(h uint32) uint32 {
+		base := uint32(minichain.GenesisTime)
+		switch {
+		case h <= 2015:
+			return base + 600*h
+		case h == 2016:
+			return base + 600*2015 + 500000
+		default:
+			return base + 600*2015 + (h - 2016) // always above the median of the last 11
+		}
+	}})
 	if only := os.Getenv("C05_ONLY"); only != "" {
 		var l []stateDef
 		for _, d := range defs {
